@@ -280,10 +280,52 @@ def parse_tla_value(s):
     return val()  # parses one value; trailing text is ignored
 
 
+# Parts of one split trace are validated by concurrent TLC processes: the first request for a part
+# starts all its siblings (same module, constants, invariants; tag suffix _k), later requests pick
+# up the finished result.  Results are consumed in the caller's order, so reporting stays deterministic.
+PART_GROUPS = {}
+_VCACHE = {}
+VALIDATE_JOBS = int(os.environ.get("VERIF_VALIDATE_JOBS", "5"))
+
+
+def register_parts(parts):
+    if len(parts) > 1:
+        for p in parts:
+            PART_GROUPS[p] = list(parts)
+    return parts
+
+
 def tlc_validate(module, trace_path, tag, constants=None, timeout=1800, heap="8g", invariants=("Done",),
                  env_extra=None):
     """E3: trace validation. Returns (checked, mismatches) where mismatches is
     a list of [record index, clause]."""
+    key = (module, trace_path, tag)
+    group = PART_GROUPS.get(trace_path)
+    if key not in _VCACHE and group and tag.endswith("_%d" % group.index(trace_path)):
+        import concurrent.futures
+        stem = tag[:-len("_%d" % group.index(trace_path))]
+        jobs = [(module, p, "%s_%d" % (stem, j)) for j, p in enumerate(group)]
+        jobs = [j for j in jobs if j not in _VCACHE]
+
+        def one(job):
+            try:
+                return ("ok", _tlc_validate_one(job[0], job[1], job[2], constants, timeout, heap, invariants, env_extra))
+            except BaseException as e:  # re-raised when the caller asks for this part
+                return ("exc", e)
+        with concurrent.futures.ThreadPoolExecutor(max_workers=VALIDATE_JOBS) as ex:
+            for job, r in zip(jobs, ex.map(one, jobs)):
+                _VCACHE[job] = r
+        for p in group:
+            PART_GROUPS.pop(p, None)
+    if key in _VCACHE:
+        kind, val = _VCACHE.pop(key)
+        if kind == "exc":
+            raise val
+        return val
+    return _tlc_validate_one(module, trace_path, tag, constants, timeout, heap, invariants, env_extra)
+
+
+def _tlc_validate_one(module, trace_path, tag, constants, timeout, heap, invariants, env_extra):
     cfg = write_cfg("%s_%s" % (module, tag), constants=constants, invariants=invariants,
                     postcondition="Post")
     env = {"TRACE": trace_path, "_DEQUE": "1"}
